@@ -182,6 +182,19 @@ def first_forms(t, xs):
     if t[0] == "call" and t[1] == "std::iter::Iterator::skip" and len(t[2]) == 2 and t[2][1] == lit_int(1) \
             and t[2][0] in (("call", "core::slice::iter", (xs,)), ("call", "std::iter::IntoIterator::into_iter", (xs,))):
         return ("rest",)
+    if t[0] == "quant" and t[1] == "all" and t[2] in (("call", "core::slice::iter", (xs,)), ("call", "std::iter::IntoIterator::into_iter", (xs,))) \
+            and t[3][0] == "eq":
+        # "every entry (the first one included) equals the first": the first equals itself, so this is about the remaining ones
+        def path_of(u, root):
+            path = []
+            while u[0] == "field":
+                path.append(u[2])
+                u = u[1]
+            return tuple(reversed(path)) if u == root else None
+        for l_, r_ in ((t[3][1], t[3][2]), (t[3][2], t[3][1])):
+            pl_, pr_ = path_of(l_, ("bound", 0)), path_of(r_, R.ELEM)
+            if pl_ is not None and pl_ == pr_ and pl_:
+                return ("quant", "all", ("rest",), t[3])
     if t[0] == "quant" and t[1] == "all" and t[2] == ("call", "core::slice::windows", (xs, lit_int(2))) and t[3][0] == "eq":
         b0 = ("bound", 0)
         l_, r_ = t[3][1], t[3][2]
